@@ -231,7 +231,6 @@ impl Compactor {
                 #[cfg(risinglight_verif)]
                 crate::verif::gate("compactor.pass.begin").await;
                 let tables = self.storage.tables.read().clone();
-                let pin_version = self.storage.version.pin();
                 #[cfg(risinglight_verif)]
                 crate::verif::gate("compactor.pinned").await;
                 for (_, table) in tables {
@@ -239,9 +238,14 @@ impl Compactor {
                         .storage
                         .txn_mgr
                         .try_lock_for_compaction(table.table_id())
-                        && let Err(err) = self.compact_table(&pin_version.snapshot, table).await
                     {
-                        warn!("failed to compact: {:?}", err);
+                        // Pin the version only after the table lock is held: deletes that
+                        // committed before we got the lock must be visible to the compaction,
+                        // otherwise the rows they removed would come back.
+                        let pin_version = self.storage.version.pin();
+                        if let Err(err) = self.compact_table(&pin_version.snapshot, table).await {
+                            warn!("failed to compact: {:?}", err);
+                        }
                     }
                 }
                 match self.stop.try_recv() {
